@@ -20,11 +20,18 @@ package main
 //   dnskey = flags.proto.alg.keyhex   svcb = prio.targethex.n:key-valhex_key-valhex   uri = prio.weight.targethex
 
 import (
+	"bufio"
+	"encoding/hex"
 	"fmt"
+	"io"
 	"math/rand"
 	"net"
+	"os"
+	"os/exec"
 	"path/filepath"
+	"runtime/debug"
 	"strings"
+	"time"
 
 	"github.com/gopacket/gopacket"
 	"github.com/gopacket/gopacket/layers"
@@ -32,7 +39,121 @@ import (
 
 type ldns struct{}
 
-func init() { register("Ldns", ldns{}) }
+func init() {
+	register("Ldns", ldns{})
+	commands["ldnscanary"] = ldnsCanaryMain
+}
+
+// ---------------------------------------------------------------- protection against unrecoverable crashes
+//
+// decodeName is recursive; a defect in its recursion guard ends in a fatal "stack overflow", which no
+// recover() catches and which would take the whole harness down.  Every byte string is therefore
+// decoded FIRST in a long-lived child process (this executable with the sub-command ldnscanary,
+// running with a small stack cap).  If the child dies on an input, or does not answer within 10 s,
+// the input is recorded as class panic / stuck (oracle C19:panic / C19:stuck) and is never decoded
+// in this process; the child is restarted for the next input.
+
+func ldnsCanaryMain(args []string) {
+	debug.SetMaxStack(48 << 20)
+	in := bufio.NewReaderSize(os.Stdin, 1<<22)
+	out := bufio.NewWriter(os.Stdout)
+	for {
+		line, err := in.ReadString('\n')
+		if err != nil {
+			return
+		}
+		if data, derr := hex.DecodeString(strings.TrimSpace(line)); derr == nil {
+			func() {
+				defer func() { recover() }()
+				d := &layers.DNS{}
+				if d.DecodeFromBytes(n6clip(data), &n6fb{}) == nil {
+					_ = d.SerializeTo(gopacket.NewSerializeBuffer(), gopacket.SerializeOptions{FixLengths: true})
+				}
+			}()
+		}
+		out.WriteString("ok\n")
+		out.Flush()
+	}
+}
+
+type ldnsCanaryProc struct {
+	cmd *exec.Cmd
+	in  io.WriteCloser
+	out *bufio.Reader
+}
+
+var (
+	ldnsCan     *ldnsCanaryProc
+	ldnsCanOff  bool
+	ldnsVerdict = map[string]string{}
+)
+
+func ldnsCanaryStart() *ldnsCanaryProc {
+	exe, err := os.Executable()
+	if err != nil {
+		return nil
+	}
+	cmd := exec.Command(exe, "ldnscanary")
+	in, err1 := cmd.StdinPipe()
+	out, err2 := cmd.StdoutPipe()
+	if err1 != nil || err2 != nil || cmd.Start() != nil {
+		return nil
+	}
+	return &ldnsCanaryProc{cmd, in, bufio.NewReader(out)}
+}
+
+func (c *ldnsCanaryProc) stop() {
+	c.in.Close()
+	c.cmd.Process.Kill()
+	c.cmd.Wait()
+}
+
+// ldnsSafe returns "" when decoding data is survivable, else the class to report (panic, stuck).
+func ldnsSafe(data []byte) string {
+	if ldnsCanOff {
+		return ""
+	}
+	key := string(data)
+	if v, ok := ldnsVerdict[key]; ok {
+		return v
+	}
+	if ldnsCan == nil {
+		if ldnsCan = ldnsCanaryStart(); ldnsCan == nil {
+			ldnsCanOff = true // no child process available: run unprotected
+			return ""
+		}
+	}
+	c := ldnsCan
+	v := ""
+	if _, err := io.WriteString(c.in, hex.EncodeToString(data)+"\n"); err != nil {
+		v = "panic"
+	} else {
+		ch := make(chan error, 1)
+		go func() { _, err := c.out.ReadString('\n'); ch <- err }()
+		select {
+		case err := <-ch:
+			if err != nil {
+				v = "panic" // the child died while decoding this input
+			}
+		case <-time.After(10 * time.Second):
+			v = "stuck"
+		}
+	}
+	if v != "" {
+		c.stop()
+		ldnsCan = nil
+	}
+	ldnsVerdict[key] = v
+	return v
+}
+
+// ldnsDecode = DecodeFromBytes into d under the canary and the in-process watchdog.
+func ldnsDecode(d *layers.DNS, data []byte, df gopacket.DecodeFeedback) string {
+	if v := ldnsSafe(data); v != "" {
+		return v
+	}
+	return n6decode(func() error { return d.DecodeFromBytes(data, df) })
+}
 
 // ---------------------------------------------------------------- canonical printing
 
@@ -349,7 +470,7 @@ func (ldns) Run(c Case) Result {
 			data := n6unhex(a[0])
 			d := &layers.DNS{}
 			df := &n6fb{}
-			cls := n6decode(func() error { return d.DecodeFromBytes(data, df) })
+			cls := ldnsDecode(d, data, df)
 			rend := ldnsRender(d)
 			res.Obs = append(res.Obs, fmt.Sprintf("cls=%s;trunc=%d;%s;%s", cls, n6b2i(df.t), ldnsState(d), rend))
 			if cls == "panic" || cls == "stuck" {
@@ -384,17 +505,17 @@ func (ldns) Run(c Case) Result {
 		case "dec2":
 			da, db := n6unhex(a[0]), n6unhex(a[1])
 			d := &layers.DNS{}
-			clsA := n6decode(func() error { return d.DecodeFromBytes(da, &n6fb{}) })
+			clsA := ldnsDecode(d, da, &n6fb{})
 			if len(d.Questions)+len(d.Answers)+len(d.Authorities)+len(d.Additionals) > 0 {
 				tags["residue-records"] = true
 			}
 			df := &n6fb{}
-			cls := n6decode(func() error { return d.DecodeFromBytes(db, df) })
+			cls := ldnsDecode(d, db, df)
 			rend := ldnsRender(d)
 			res.Obs = append(res.Obs, fmt.Sprintf("cls=%s;trunc=%d;%s;%s", cls, n6b2i(df.t), ldnsState(d), rend))
 			fd := &layers.DNS{}
 			fdf := &n6fb{}
-			fcls := n6decode(func() error { return fd.DecodeFromBytes(n6clip(db), fdf) })
+			fcls := ldnsDecode(fd, n6clip(db), fdf)
 			if cls != fcls || df.t != fdf.t || (len(db) >= 12 && ldnsState(d) != ldnsState(fd)) {
 				res.Oracle = append(res.Oracle, n6oracle("C05:stale", "DNS after %s (%s): reused %s;%s fresh %s;%s", n6big(da), clsA, cls, ldnsState(d), fcls, ldnsState(fd)))
 			}
@@ -422,10 +543,13 @@ func (ldns) Run(c Case) Result {
 				data := n6unhex(a[0])
 				mk = func() *layers.DNS {
 					d := &layers.DNS{}
-					n6decode(func() error { return d.DecodeFromBytes(n6clip(data), &n6fb{}) })
+					ldnsDecode(d, n6clip(data), &n6fb{})
 					return d
 				}
-				if n6decode(func() error { return (&layers.DNS{}).DecodeFromBytes(n6clip(data), &n6fb{}) }) != "ok" {
+				if c0 := ldnsDecode(&layers.DNS{}, n6clip(data), &n6fb{}); c0 != "ok" {
+					if c0 == "panic" || c0 == "stuck" {
+						res.Oracle = append(res.Oracle, n6oracle("C19:"+c0, "DNS DecodeFromBytes: %s on %s", c0, n6big(data)))
+					}
 					tags["error-residue"] = true
 				}
 				ldnsTagsOf(data, tags)
@@ -471,7 +595,10 @@ func (ldns) Run(c Case) Result {
 				payload = n6payload(a[1])
 				d = &layers.DNS{}
 				data := n6unhex(a[0])
-				first = n6decode(func() error { return d.DecodeFromBytes(data, &n6fb{}) })
+				first = ldnsDecode(d, data, &n6fb{})
+				if first == "panic" || first == "stuck" {
+					res.Oracle = append(res.Oracle, n6oracle("C19:"+first, "DNS DecodeFromBytes: %s on %s", first, n6big(data)))
+				}
 				ldnsTagsOf(data, tags)
 			} else {
 				payload = n6payload(a[0])
@@ -487,7 +614,7 @@ func (ldns) Run(c Case) Result {
 			var wire []byte
 			if scls == "ok" {
 				wire = n6clip(out[:len(out)-len(payload)])
-				cls2 = n6decode(func() error { return d2.DecodeFromBytes(wire, df2) })
+				cls2 = ldnsDecode(d2, wire, df2)
 			}
 			rend := ldnsRender(d2)
 			res.Obs = append(res.Obs, fmt.Sprintf("scls=%s;cls=%s;trunc=%d;%s;%s", scls, cls2, n6b2i(df2.t), ldnsState(d2), rend))
@@ -513,7 +640,7 @@ func (ldns) Run(c Case) Result {
 					} else {
 						// second generation: the full state (DataLength, Data included) is now stable
 						d3 := &layers.DNS{}
-						cls4 := n6decode(func() error { return d3.DecodeFromBytes(n6clip(out3[:len(out3)-len(payload)]), &n6fb{}) })
+						cls4 := ldnsDecode(d3, n6clip(out3[:len(out3)-len(payload)]), &n6fb{})
 						if cls4 != "ok" || ldnsState(d3) != ldnsState(d2) {
 							res.Oracle = append(res.Oracle, n6oracle("C06:fixpoint", "DNS second-generation decode differs: %s %s vs %s", cls4, ldnsState(d3), ldnsState(d2)))
 						}
@@ -1155,6 +1282,55 @@ func (ldns) Gen(rng *rand.Rand, tier string) []Case {
 			}
 			m = append(m, 0xc0, 12, 0, 1, 0, 1, 0, 0, 0, 1, 0, 4, 9, 9, 9, 9)
 			addAll(m)
+		}
+	}
+	// ---- RDATA cut at every length with a CONSISTENT RDLENGTH (the record ends where its RDLENGTH says,
+	// the message stays well formed, a further record follows): every internal field boundary of every
+	// RDATA decoder — after each fixed field, each length-prefixed string, each name — is reached
+	for _, t := range ldnsTypes1 {
+		for rep := 0; rep < 2*scale; rep++ {
+			m := &ldnsMsg{}
+			m.b = append(m.b, hdr(1, 2)...)
+			m.name(rng, n6pick(rng, 0, 0, 2))
+			m.u16(1)
+			m.u16(1)
+			lenAt := m.rr(rng, t)
+			rdata := append([]byte(nil), m.b[lenAt+2:]...)
+			trailer := []byte{0xc0, 12, 0, 1, 0, 1, 0, 0, 0, 5, 0, 4, 10, 0, 0, 1}
+			for k := 0; k <= len(rdata); k++ {
+				msg := append([]byte(nil), m.b[:lenAt]...)
+				msg = append(msg, byte(k>>8), byte(k))
+				msg = append(msg, rdata[:k]...)
+				msg = append(msg, trailer...)
+				add("dec:" + n6hex(msg) + ",rdata-cut-consistent")
+				if k%5 == 0 {
+					add(fmt.Sprintf("rt:%s,", n6hex(msg)))
+				}
+				if k == len(rdata) || rng.Intn(12) == 0 {
+					add(fmt.Sprintf("ser:%s,%s,", n6hex(msg), ldnsFCD(rng)))
+				}
+			}
+		}
+	}
+	// ---- pointer cycles of length 1, 2, 3 in owner names and inside RDATA names
+	{
+		// 3-cycle across three questions
+		b := append(hdr(3, 0), 1, 'a', 0xc0, 28, 0, 1, 0, 1, 1, 'b', 0xc0, 12, 0, 1, 0, 1, 1, 'c', 0xc0, 20, 0, 1, 0, 1)
+		addDec(b, "pointer-loop")
+		add(fmt.Sprintf("rt:%s,", n6hex(b)))
+		// an NS record whose RDATA name points at itself / at its own owner name which points at the RDATA
+		for _, t := range []int{2, 5, 12, 15, 6, 33, 35, 46, 64} {
+			pre := map[int]int{15: 2, 33: 6, 35: 7, 46: 18, 64: 2}[t]
+			m := append(hdr(0, 1), 1, 'x', 0, byte(t>>8), byte(t), 0, 1, 0, 0, 0, 1, 0, byte(pre+2))
+			rd := len(m)
+			m = append(m, make([]byte, pre)...)
+			m = append(m, 0xc0|byte((rd+pre)>>8), byte(rd+pre)) // the RDATA name points at itself
+			addDec(m, "pointer-loop")
+			rd2 := 12 + 2 + 10 + pre
+			m2 := append(hdr(0, 1), 0xc0|byte(rd2>>8), byte(rd2), byte(t>>8), byte(t), 0, 1, 0, 0, 0, 1, 0, byte(pre+2)) // owner -> RDATA name
+			m2 = append(m2, make([]byte, pre)...)
+			m2 = append(m2, 0xc0, 12) // RDATA name -> owner
+			addDec(m2, "pointer-loop")
 		}
 	}
 	// ---- labels that need preservation (literal dot / backslash), alone and behind pointers
